@@ -161,6 +161,11 @@ type mState struct {
 	// followed; Stale = some finalisation happened while Recreated[a] held.
 	Recreated [nAddr]bool
 	Stale     bool
+	// IR: an IntermediateRoot has run on this StateDB instance since it was
+	// opened (the instance then holds finalised-but-uncommitted objects and trie
+	// nodes).  Not observable through getters; part of the canonical key so that
+	// "finalised in place" and "committed and reopened" are explored separately.
+	IR bool
 }
 
 // sModel: current state + stack of copies taken at Snapshot (arrays only, so
@@ -291,11 +296,14 @@ func (m *sModel) apply(o sOp) string {
 		return eff
 	case "IntermediateRoot":
 		ns := len(m.snaps)
-		return fmt.Sprintf("deleted=%d/snaps=%d", m.finalise(), ns)
+		d := m.finalise()
+		m.cur.IR = true
+		return fmt.Sprintf("deleted=%d/snaps=%d", d, ns)
 	case "CommitReopen":
 		ns := len(m.snaps)
 		d := m.finalise()
 		m.cur.Logs = 0
+		m.cur.IR = false
 		return fmt.Sprintf("v%d/deleted=%d/snaps=%d", o.X, d, ns)
 	}
 	core.Fatal("unknown statedb op %q", o.Op)
@@ -334,6 +342,9 @@ func encState(b *bytes.Buffer, s *mState) {
 	if s.Stale {
 		f |= 0x80
 	}
+	if s.IR {
+		f |= 0x40
+	}
 	b.WriteByte(f)
 }
 
@@ -342,7 +353,8 @@ type skey [12]byte
 // key: canonical key of a StateDB state = everything the exported getters can
 // observe now (accounts, storage, committed storage, suicide flags, refund,
 // logs) plus the same for every live snapshot, i.e. everything they can observe
-// after any sequence of reverts.
+// after any sequence of reverts, plus three bits of history shape that getters
+// cannot see (Recreated, Stale, IR — see mState).
 func (m *sModel) key() skey {
 	var b bytes.Buffer
 	encState(&b, &m.cur)
